@@ -111,7 +111,7 @@ def _work(args):
 def run(tier, seed, replay=None):
     assert_repo_import()
     chk = Check("C10", tier, seed)
-    model_ok = chk.proof_stage(["Fs/Cache.vo"])
+    model_ok = chk.proof_stage(["Fs/Cache.vo", "Fs/FsProofs.vo", "Report/JsonProofs.vo"])
     tmp = tempfile.mkdtemp(prefix="verif_c10_")
     jobs = []
     try:
